@@ -510,7 +510,7 @@ func ruleG11(c *Ctx, id string) {
 				if !isIA || !isInodePtr(st.Val.Type()) {
 					continue
 				}
-				if _, isMk := stripConv(ia.X).(*ssa.MakeSlice); !isMk {
+				if _, isMk := sc.S.resolve(stripConv(ia.X)).(*ssa.MakeSlice); !isMk {
 					continue
 				}
 				if !reachableFrom(st, st) {
